@@ -920,7 +920,10 @@ fn process_chunk(
                 // If the new font represents the same cluster with fewer glyphs
                 // then remove remaining glyphs.
                 for _ in 1..new_glyph.cluster_len {
-                    glyphs.remove(idx + 1);
+                    // The previous font can have fewer glyphs left than the cluster has bytes.
+                    if idx + 1 < glyphs.len() {
+                        glyphs.remove(idx + 1);
+                    }
                 }
             } else if prev_cluster_len > new_glyph.cluster_len {
                 // If the new font represents the same cluster with more glyphs
